@@ -80,7 +80,7 @@ def mutations(rng, b, sites, small):
             yield "site%d=%s" % (min(i, 3), "0" if v == 0 else "max" if v == (1 << (8 * n)) - 1 else "x"), bytes(m)
         # a few bytes more or less than the consistent value: the announced end falls inside a descriptor or its header
         honest = int.from_bytes(b[off : off + n], "big")
-        for d in (-9, -8, -7, -6, -5, -4, -3, -2, -1, 1, 2, 3, 4, 5):
+        for d in list(range(-24, 0)) + [1, 2, 3, 4, 5]:
             if 0 <= honest + d < 1 << (8 * n):
                 m = bytearray(b)
                 force(m, off, n, honest + d)
@@ -290,7 +290,7 @@ def run(shard, ctx):
                 ctx.add("hostility_classes", "%s:%s" % (f.name, klass))
                 call_budget(ctx, sm, f.name, lambda m=m: cls.unmarshall_datain(bytearray(m), **kw), m, alloc,
                             lambda m=m, klass=klass: {"decoder": f.name, "class": klass, "kwargs": kw, "buffer": m}, klass, memcheck=(i % 25 == 0))
-                if i % 3 == 0 and f.name != "readcd":
+                if (i % 3 == 0 or klass.endswith("off_by_few")) and f.name != "readcd":
                     instance_path(ctx, sm, f, rng, m, kw, klass)
         if f.name == "readelementstatus":
             cross_referenced_elements(ctx, sm, f, cls, rng, shard["small"])
